@@ -214,6 +214,12 @@ class Impl:
                 if not raw:
                     srv.remove_all()
                 srv.parent.remove_node(srv)
+        elif k == 'MoveServer':
+            _, name, newparent = op
+            srv = self.servers.get(name)
+            if srv is not None:
+                srv.parent.remove_node(srv)
+                self.buckets[newparent].add_node(srv)
         elif k == 'SetState':
             _, name, st, since = op
             if name in self.servers:
@@ -371,6 +377,8 @@ class Impl:
                 'renew': bool(app.renew), 'unschedule': bool(app.unschedule),
                 'rank': getattr(app, 'final_rank', -1),
                 'label': self.label_ids[al.label] if al is not None else None,
+                'alloc_path': [self.part_ids[x] for x in al.path] if al is not None else None,
+                'order': app.global_order,
                 'alloc_traits': int(al.traits) if al is not None else 0,
             }
         servers = {}
@@ -430,7 +438,7 @@ def run_history(case, want_trace=True):
                     ops_out.append(['Tick', impl.clock.now] if rc == 'noop' else op)
                     d = impl.dump()
                     if want_trace:
-                        trace.append({'op': op[0]})
+                        trace.append({'op': op[0], 'args': op, 'now': impl.clock.now})
                 digests.append(digest(d))
             except Exception as e:   # noqa
                 import traceback
@@ -477,6 +485,8 @@ def t_op(op):
                                                    G.z(op[6]))
     if k == 'RemoveServer':
         return '(ORemoveServer %s %s)' % (G.z(op[1]), G.b(op[2]))
+    if k == 'MoveServer':
+        return '(OMoveServer %s %s)' % (G.z(op[1]), G.z(op[2]))
     if k == 'SetState':
         return '(OSetState %s %s %s)' % (G.z(op[1]), ['Up', 'Down', 'Frozen'][op[2]], G.z(op[3]))
     if k == 'SetValidUntil':
